@@ -154,6 +154,56 @@ func bundleFor(ns, tmpl, file string, msgs []msgSpec) *gen.Case {
 	return c
 }
 
+// nestings are the constructs a message can sit inside: "surrounding code" in the property's words.
+var nestings = map[string][2]string{
+	"in-if":             {"{if $c10b}", "{/if}"},
+	"in-else":           {"{if $c10b}x{else}", "{/if}"},
+	"in-elseif":         {"{if $c10b}x{elseif not $c10b}", "{else}y{/if}"},
+	"in-switch-case":    {"{switch $c10n}{case 0}x{case 1, 2}", "{default}y{/switch}"},
+	"in-switch-default": {"{switch $c10n}{case 0}x{default}", "{/switch}"},
+	"in-foreach":        {"{foreach $c10i in $c10l}", "{/foreach}"},
+	"in-ifempty":        {"{foreach $c10i in $c10l}x{ifempty}", "{/foreach}"},
+	"in-for":            {"{for $c10i in range(2)}", "{/for}"},
+	"in-let":            {"{let $c10v}", "{/let}{$c10v}"},
+	"in-param":          {"{call .c10u}{param p}", "{/param}{/call}"},
+	"in-log":            {"{log}", "{/log}"},
+	"deep":              {"{if $c10b}{foreach $c10i in $c10l}{switch $c10n}{case 3}{let $c10v}", "{/let}{$c10v}{/switch}{ifempty}z{/foreach}{/if}"},
+	"deep-ifempty":      {"{foreach $c10i in $c10l}x{ifempty}{if $c10b}{for $c10j in range(1)}", "{/for}{/if}{/foreach}"},
+}
+
+var nestingNames = func() []string {
+	var out []string
+	for k := range nestings {
+		out = append(out, k)
+	}
+	sort.Strings(out)
+	return out
+}()
+
+// nestedBundle prints a one-file bundle whose template holds the message inside the given nesting.
+func nestedBundle(kind string, m msgSpec) *gen.Case {
+	w := nestings[kind]
+	vars := map[string]bool{"c10b": true, "c10n": true, "c10l": true}
+	for _, v := range m.vars() {
+		vars[v] = true
+	}
+	var names []string
+	for v := range vars {
+		names = append(names, v)
+	}
+	sort.Strings(names)
+	var sb strings.Builder
+	sb.WriteString("{namespace app.m}\n\n/**\n")
+	for _, v := range names {
+		fmt.Fprintf(&sb, " * @param? %s\n", v)
+	}
+	sb.WriteString(" */\n{template .t}\n" + w[0] + m.source() + w[1] + "\n{$c10b}{$c10n}{$c10l}\n{/template}\n")
+	sb.WriteString("\n/** @param p */\n{template .c10u}\n{$p}\n{/template}\n")
+	c := &gen.Case{Files: []*gen.File{{Name: "m.soy", Text: sb.String()}}}
+	c.Globals = []gen.KV{{K: "G_X", V: gen.DVal{T: "int", I: 1}}, {K: "app.G_X", V: gen.DVal{T: "str", S: "g"}}}
+	return c
+}
+
 func genParts(r *simrt.RNG, n int, allowPlural bool) []msgPart {
 	var out []msgPart
 	for i := 0; i < n; i++ {
@@ -292,7 +342,10 @@ func c10Exec(cs *c10Case, plan *simrt.MapPlan, u *wk.Unit) *wk.Failure {
 			c = bundleFor("app.m", "t", "m.soy", []msgSpec{cs.Msg, cs.Msg})
 			idx = 1
 		default:
-			return &wk.Failure{Class: "invalid-case", Detail: "variant"}
+			if _, ok := nestings[cs.Variant]; !ok {
+				return &wk.Failure{Class: "invalid-case", Detail: "variant"}
+			}
+			c = nestedBundle(cs.Variant, cs.Msg)
 		}
 		v, _ := observeMsgCase(c, simrt.CanonicalPlan())
 		if !v.Accept || len(v.Msgs) <= idx {
@@ -557,6 +610,10 @@ func C10(c *wk.Ctx) {
 			// (d) contexts
 			for _, v := range []string{"surrounded", "elsewhere", "description", "description-bar", "description-punct", "description-empty", "twice"} {
 				do(&c10Case{Msg: m, Others: others, Check: "context", Variant: v}, nil)
+			}
+			for _, v := range nestingNames {
+				do(&c10Case{Msg: m, Check: "context", Variant: v}, nil)
+				u.Counters["check_context_nested"]++
 			}
 			// (e) sensitivity
 			for _, v := range []string{"text", "meaning", "placeholder", "plural-structure", "last-char", "meaning-last-char"} {
